@@ -61,11 +61,17 @@ pub struct World {
 }
 
 pub fn make_world(nsrc: usize) -> World {
+    make_world_opts(nsrc, true)
+}
+
+/// `with_v6`: one live server on `[::1]` and IPv6 source labels (the SOCKS5 relay of the harness is IPv4-only)
+pub fn make_world_opts(nsrc: usize, with_v6: bool) -> World {
     let mut kinds = vec![];
     let mut dst = vec![];
     let mut srv = vec![];
-    for _ in 0..2 {
-        let s = UdpSocket::bind("127.0.0.1:0").unwrap();
+    for k in 0..2 {
+        // the second live server is an IPv6 one where the machine has IPv6 loopback
+        let s = if k == 1 && with_v6 { UdpSocket::bind("[::1]:0").or_else(|_| UdpSocket::bind("127.0.0.1:0")).unwrap() } else { UdpSocket::bind("127.0.0.1:0").unwrap() };
         s.set_nonblocking(true).unwrap();
         kinds.push('L');
         dst.push(s.local_addr().unwrap());
@@ -106,7 +112,16 @@ pub fn make_world(nsrc: usize) -> World {
     kinds.push('U');
     dst.push(SocketAddr::from(([255, 255, 255, 255], 9)));
     srv.push(None);
-    let src = (0..nsrc).map(|i| SocketAddr::from(([10, 1, 0, 1 + i as u8], 4000 + i as u16))).collect();
+    // client-side source labels: IPv4, and every second one IPv6
+    let src = (0..nsrc)
+        .map(|i| {
+            if i % 2 == 1 && with_v6 {
+                SocketAddr::from((std::net::Ipv6Addr::new(0xfd00, 1, 0, 0, 0, 0, 0, 2 + i as u16), 4000 + i as u16))
+            } else {
+                SocketAddr::from(([10, 1, 0, 1 + i as u8], 4000 + i as u16))
+            }
+        })
+        .collect();
     World { kinds, dst, srv, src }
 }
 
